@@ -3,7 +3,9 @@ import Operon.Model.Ribosome
 import Operon.Model.Tmpl
 /-! Line-protocol driver for the ribosome model (C12).  A case is a history over several instances.
 
-  env <extraWordCps> <extraSpaceCps> <markerPre> <markerSuf> (<set>=<filterName>,…)*
+  env <extraWordCps> <extraSpaceCps> <markerPre> <markerSuf> (<set>=<filterName>,…)* (@render=<name>,… @translate=<name>,…)
+                     (@render/@translate: the context names that the call protocol of synthesize/translate rejects with
+                      TypeError because they name a positionally filled parameter — probed on the tree under test)
   ctx (<name>=<kind><truthy>,<text>[,L<item>;<item>…])*  item = <kind><text>[/<key>~<value>]*
   fenv (<set>:<filter>:<var>:o:<result> | <set>:<filter>:<var>:r:<class>)*
   new <id> <strict> <set> (<key>:<mrnaName>:<sequence>)*     (constructor templates= mapping: the KEY registers)
@@ -174,6 +176,16 @@ def renderAll (st : DSt) (inst : Inst) (top : Str) : String :=
 def putKey (ts : List (Str × Str)) (k v : Str) : List (Str × Str) :=
   if ts.any (fun p => p.1 == k) then ts.map (fun p => if p.1 = k then (k, v) else p) else ts ++ [(k, v)]
 
+/-- names that `synthesize` ("render") / `translate` cannot take as keyword bindings -/
+def reservedOf (st : DSt) (op : String) : List Str :=
+  ((st.fsets.find? (fun p => p.1 == "@" ++ op)).map (·.2)).getD []
+
+/-- the call protocol in front of the body (`Ribosome.callEntry`) -/
+def callGuard (st : DSt) (op : String) (k : Unit → String) : String :=
+  match callEntry (reservedOf st op) st.ctx (fun _ => .ok ([], [])) with
+  | .error _ => "raise:TypeError ## call:typeerror"
+  | .ok _ => k ()
+
 def getInst (st : DSt) (id : String) : Option Inst := (st.insts.find? (fun p => p.1 == id)).map (·.2)
 
 def setInst (st : DSt) (id : String) (i : Inst) : DSt :=
@@ -215,14 +227,15 @@ def step (st : DSt) (toks : List String) : DSt × String :=
   | ["render", id, s] =>
     match getInst st id with
     | none => (st, "bad-op")
-    | some i => (st, renderAll st i (decodeCps s))
+    | some i => (st, callGuard st "render" fun _ => renderAll st i (decodeCps s))
   | ["translate", id, n] =>
     match getInst st id with
     | none => (st, "bad-op")
     | some i =>
-      match lookup (decodeCps n) i.templates with
-      | some t => (st, renderAll st i t)
-      | none => (st, showRes (translateNamed (mkCfg st i) st.ctx (decodeCps n)))
+      (st, callGuard st "translate" fun _ =>
+        match lookup (decodeCps n) i.templates with
+        | some t => renderAll st i t
+        | none => showRes (translateNamed (mkCfg st i) st.ctx (decodeCps n)))
   | _ => (st, "bad-op")
 
 def main : IO Unit := runDriver ({} : DSt) step
